@@ -583,9 +583,13 @@ def main(modname, argv=None):
     open_f = [e for e in findings if e.get("status") == "open"]
     matchers = getattr(mod, "MATCHERS", {})
     unlisted, claimed = [], {}
+    # where the Lean model REPRODUCES the open findings (it models the code that exists, defects included), a failing input is
+    # attributed to a known finding only while the implementation still does exactly what the model does on it: the same input
+    # failing in another way (got != model) is a new failure, however well it matches the finding's description
+    reproduced = bool(getattr(mod, "MODEL_REPRODUCES_KNOWN_FINDINGS", False))
     for f in d_fail:
         hit = None
-        for e in open_f:
+        for e in ([] if (reproduced and f.model is not None and f.got != f.model) else open_f):
             fn = matchers.get(e["matcher"])
             try:
                 if fn and fn(f.case, f, e.get("params", {})):
@@ -600,7 +604,7 @@ def main(modname, argv=None):
     c_real = []
     for f in c_fail:
         hit = False
-        for e in open_f:
+        for e in ([] if reproduced else open_f):
             fn = matchers.get(e["matcher"])
             try:
                 if fn and fn(f.case, f, e.get("params", {})):
